@@ -502,7 +502,8 @@ theorem recv_spec (role : Role) (H : Hdr) (e : Ending) :
     cases role <;> cases e <;>
       simp [compile, Ending.term, documented, pollHead, pollResolve, pollRecvResponse, tok_next_nil, Term.next,
         fsErr, connErr, first, observe, resObs, expected, atStop, stopOf, sideOf, violation, Phase.seen,
-        Expect.accepts, CODE_H3_FRAME_ERROR, H3_FRAME_ERROR, CODE_H3_REQUEST_INCOMPLETE, H3_REQUEST_INCOMPLETE]
+        Expect.accepts, CODE_H3_FRAME_ERROR, H3_FRAME_ERROR, CODE_H3_REQUEST_INCOMPLETE, H3_REQUEST_INCOMPLETE,
+        clientNoResponse, CODE_H3_FRAME_UNEXPECTED, H3_FRAME_UNEXPECTED]
   | cons tok r ih =>
     intro fuel hwf hHs hf
     have hwf' : ∀ tok ∈ r, TokWF tok := fun x hx => hwf x (by simp [hx])
